@@ -1036,3 +1036,104 @@ Proof.
   rewrite IH.
   destruct (mpass fuel (saturating_sub cw (Z.min (ms_w x) cw - w')) mf r) as [[[r' cw2] out2]|]; reflexivity.
 Qed.
+
+(* ------------------------------------------------------------------ *)
+(** * Receiver credit: credited + pending = consumed wire bytes, per level *)
+
+Fixpoint credit_run (acc thr : Z) (frames : list (Z * bool)) : Z * list Z * list Z :=
+  match frames with
+  | [] => (acc, [], [])
+  | (wire, es) :: r =>
+    let '(acc1, cwu, swu) := on_data_credit acc thr wire es in
+    let '(acc2, cs, ss) := credit_run acc1 thr r in
+    (acc2, match cwu with Some c => c :: cs | None => cs end, match swu with Some s => s :: ss | None => ss end)
+  end.
+
+Lemma credit_conservation frames : forall acc thr acc' cs ss,
+  credit_run acc thr frames = (acc', cs, ss) ->
+  sumz cs + acc' = acc + sumz (map fst frames) /\
+  sumz ss = sumz (map fst (filter (fun f => negb (snd f)) frames)).
+Proof.
+  induction frames as [|[wire es] r IH]; intros acc thr acc' cs ss H; cbn [credit_run] in H.
+  - inversion H; subst. cbn. split; lia.
+  - unfold on_data_credit in H.
+    destruct (thr <=? acc + wire) eqn:T.
+    + destruct (credit_run 0 thr r) as [[a2 c2] s2] eqn:R. destruct (IH _ _ _ _ _ R) as [I1 I2].
+      assert (E : forall a l, sumz (a :: l) = a + sumz l) by reflexivity.
+      destruct es; inversion H; subst; cbn [map fst snd filter negb]; rewrite ?E; split; lia.
+    + destruct (credit_run (acc + wire) thr r) as [[a2 c2] s2] eqn:R. destruct (IH _ _ _ _ _ R) as [I1 I2].
+      assert (E : forall a l, sumz (a :: l) = a + sumz l) by reflexivity.
+      destruct es; inversion H; subst; cbn [map fst snd filter negb]; rewrite ?E; split; lia.
+Qed.
+
+(* ------------------------------------------------------------------ *)
+(** * MAX_CONCURRENT_STREAMS toward a backend *)
+
+Lemma open_waiting_spec limit : forall waiting opened o wt,
+  open_waiting limit opened waiting = (o, wt) ->
+  o ++ wt = opened ++ waiting /\
+  Z.of_nat (length o) <= Z.max (Z.of_nat (length opened)) limit /\
+  (length opened <= length o)%nat /\
+  (wt <> [] -> limit <= Z.of_nat (length o)).
+Proof.
+  induction waiting as [|s r IH]; intros opened o wt H; cbn [open_waiting] in H.
+  - inversion H; subst. rewrite app_nil_r. repeat split; try lia. intros C; contradiction.
+  - destruct (Z.of_nat (length opened) <? limit) eqn:L.
+    + apply IH in H. destruct H as (H1 & H2 & H3 & H4). apply Z.ltb_lt in L.
+      rewrite app_length in *. cbn [length] in *. rewrite <- app_assoc in H1. cbn [app] in H1.
+      repeat split; try assumption; lia.
+    + inversion H; subst. apply Z.ltb_ge in L. repeat split; try lia.
+Qed.
+
+(** along any list of events, a write pass never makes more streams open on the wire
+    than the limit in force (unless more were already open when the limit was lowered:
+    then it opens none), and opens them lowest-attached first *)
+Lemma wire_step_bound w e :
+  let w' := wire_step w e in
+  Z.of_nat (length (w_opened w')) <= Z.max (Z.of_nat (length (w_opened w))) (w_limit w) /\
+  (e = WPass -> w_opened w' ++ w_waiting w' = w_opened w ++ w_waiting w /\
+                (w_waiting w' <> [] -> w_limit w <= Z.of_nat (length (w_opened w')))).
+Proof.
+  cbv zeta. destruct e as [sid|v| |sid]; cbn [wire_step].
+  - destruct (w_limit w <=? _); cbn [w_opened]; split; try lia; discriminate.
+  - cbn [w_opened]. split; [lia|discriminate].
+  - destruct (open_waiting (w_limit w) (w_opened w) (w_waiting w)) as [o wt] eqn:O.
+    apply open_waiting_spec in O. destruct O as (O1 & O2 & O3 & O4). cbn [w_opened w_waiting].
+    split; [exact O2|]. intros _. split; [exact O1|exact O4].
+  - cbn [w_opened]. split; [|discriminate].
+    assert (length (filter (fun x : Z => negb (Z.eqb x sid)) (w_opened w)) <= length (w_opened w))%nat.
+    { induction (w_opened w) as [|a l IHl]; cbn [filter length]; [lia|]. destruct (negb (Z.eqb a sid)); cbn [length]; lia. }
+    lia.
+Qed.
+
+(* ------------------------------------------------------------------ *)
+(** * The ready loop only keeps going while some I/O can be attempted *)
+
+Lemma loop_continues_has_io front backends :
+  (forall c, In c (front :: backends) -> cr_hup c = true -> cr_dead_kept c = true) ->
+  loop_continues true front backends = true ->
+  exists c, In c (front :: backends) /\ (cr_r c = true \/ cr_w c = true).
+Proof.
+  intros Hk H. unfold loop_continues in H. apply orb_true_iff in H. destruct H as [H|H].
+  - exists front. split; [left; reflexivity|]. unfold conn_has_work in H.
+    apply orb_true_iff in H. destruct H as [H|H].
+    + apply orb_true_iff in H. exact H.
+    + exfalso. apply andb_prop in H. destruct H as [H1 H2].
+      rewrite (Hk front (or_introl eq_refl) H1) in H2. discriminate.
+  - apply existsb_exists in H. destruct H as (c & Hin & Hc). exists c. split; [right; exact Hin|].
+    unfold conn_has_work in Hc. apply orb_true_iff in Hc. destruct Hc as [Hc|Hc].
+    + apply orb_true_iff in Hc. exact Hc.
+    + exfalso. apply andb_prop in Hc. destruct Hc as [H1 H2].
+      rewrite (Hk c (or_intror Hin) H1) in H2. discriminate.
+Qed.
+
+(** reading never parks when the peer was only ever granted what the buffers can take *)
+Lemma read_one_never_parks c f r :
+  rc_incoming c = f :: r ->
+  (forall s len, f = FData s len -> len <= nth s (rc_free c) 0) ->
+  read_one c <> None.
+Proof.
+  intros Hi Hf. unfold read_one. rewrite Hi. destruct f as [s len|inc]; [|discriminate].
+  specialize (Hf s len eq_refl). destruct (len <=? nth s (rc_free c) 0) eqn:E; [discriminate|].
+  apply Z.leb_gt in E. lia.
+Qed.
